@@ -3,45 +3,45 @@ Open Scope N_scope.
 
 (* ---------- a successful greedy application ends in a final, conflict-free state ---------- *)
 Definition settled (g : dsg) (vars : list gvar) (s : assign) : Prop :=
-  exists W, closure g s = Some W /\ next_choice g s W vars = None /\ final_ok g s W = true.
+  exists W rem, closure g s = Some W /\ next_choice g s W rem vars = None /\ final_ok g s W = true.
 
-Lemma greedy_ok g vars x : forall fuel s taken s' taken',
-  greedy g vars x fuel s taken = Some (TOk s' taken') -> settled g vars s'.
+Lemma greedy_ok g vars x : forall fuel s rem taken s' taken',
+  greedy g vars x fuel s rem taken = Some (TOk s' taken') -> settled g vars s'.
 Proof.
-  induction fuel as [|f IH]; intros s taken s' taken' H; cbn [greedy] in H;
+  induction fuel as [|f IH]; intros s rem taken s' taken' H; cbn [greedy] in H;
     destruct (closure g s) as [W|] eqn:EW; try discriminate;
-    destruct (next_choice g s W vars) as [[c opts]|] eqn:EN.
+    destruct (next_choice g s W rem vars) as [[c opts]|] eqn:EN.
   - discriminate.
-  - destruct (final_ok g s W) eqn:EF; inversion H; subst. exists W. auto.
-  - destruct (avail g W opts) as [|o [|o2 av]] eqn:EA; try discriminate.
+  - destruct (final_ok g s W) eqn:EF; inversion H; subst. exists W, rem. auto.
+  - destruct (avail g W rem opts) as [|o [|o2 av]] eqn:EA; try discriminate.
     + eapply IH; eauto.
     + destruct (0 <=? x c)%Z; [|discriminate].
       destruct (nth_error opts (Z.to_nat (x c))) as [o'|]; [|discriminate].
       destruct (memN o' (o :: o2 :: av)); [|discriminate]. eapply IH; eauto.
-  - destruct (final_ok g s W) eqn:EF; inversion H; subst. exists W. auto.
+  - destruct (final_ok g s W) eqn:EF; inversion H; subst. exists W, rem. auto.
 Qed.
 
 (* no active choice is left: every selection choice of vars that was reached has an option *)
-Lemma next_choice_none g s W vars : next_choice g s W vars = None ->
+Lemma next_choice_none g s W rem vars : next_choice g s W rem vars = None ->
   forall v, In v vars -> memN (fst v) W = true -> assigned s (fst v) = true.
 Proof.
   unfold next_choice. intros H v Hv Hm.
-  destruct (find (fun v0 => is_pending s W v0 && (length (avail g W (snd v0)) <=? 1)%nat) vars); [discriminate|].
+  destruct (find (fun v0 => is_pending s W v0 && (length (avail g W rem (snd v0)) <=? 1)%nat) vars); [discriminate|].
   pose proof (find_none _ _ H v Hv) as Hn. unfold is_pending in Hn. rewrite Hm in Hn. simpl in Hn.
   destruct (assigned s (fst v)); [reflexivity|discriminate].
 Qed.
 
 (* what is recorded as taken is what the vector asked for *)
-Lemma greedy_taken g vars x : forall fuel s taken s' taken',
-  greedy g vars x fuel s taken = Some (TOk s' taken') ->
+Lemma greedy_taken g vars x : forall fuel s rem taken s' taken',
+  greedy g vars x fuel s rem taken = Some (TOk s' taken') ->
   (forall c i, In (c, i) taken -> i = x c) -> forall c i, In (c, i) taken' -> i = x c.
 Proof.
-  induction fuel as [|f IH]; intros s taken s' taken' H Ht; cbn [greedy] in H;
+  induction fuel as [|f IH]; intros s rem taken s' taken' H Ht; cbn [greedy] in H;
     destruct (closure g s) as [W|] eqn:EW; try discriminate;
-    destruct (next_choice g s W vars) as [[c opts]|] eqn:EN.
+    destruct (next_choice g s W rem vars) as [[c opts]|] eqn:EN.
   - discriminate.
   - destruct (final_ok g s W); inversion H; subst. exact Ht.
-  - destruct (avail g W opts) as [|o [|o2 av]] eqn:EA; try discriminate.
+  - destruct (avail g W rem opts) as [|o [|o2 av]] eqn:EA; try discriminate.
     + eapply IH; eauto.
     + destruct (0 <=? x c)%Z; [|discriminate].
       destruct (nth_error opts (Z.to_nat (x c))) as [o'|]; [|discriminate].
@@ -56,11 +56,11 @@ Definition vars_wf (g : dsg) (vars : list gvar) : Prop :=
   (forall v, In v vars -> is_sel g (fst v) = true /\ incl (snd v) (sel_opts g (fst v))) /\
   (forall c, is_sel g c = true -> In c (map fst vars)).
 
-Lemma next_choice_some g s W vars c opts : next_choice g s W vars = Some (c, opts) ->
+Lemma next_choice_some g s W rem vars c opts : next_choice g s W rem vars = Some (c, opts) ->
   In (c, opts) vars /\ memN c W = true /\ assigned s c = false.
 Proof.
   unfold next_choice. intros H.
-  destruct (find (fun v => is_pending s W v && (length (avail g W (snd v)) <=? 1)%nat) vars) as [v|] eqn:E1.
+  destruct (find (fun v => is_pending s W v && (length (avail g W rem (snd v)) <=? 1)%nat) vars) as [v|] eqn:E1.
   - inversion H; subst. apply find_some in E1. destruct E1 as [Hin Hb]. apply andb_true_iff in Hb. destruct Hb as [Hb _].
     unfold is_pending in Hb. simpl in Hb. apply andb_true_iff in Hb. destruct Hb as [Hm Ha].
     apply negb_true_iff in Ha. auto.
@@ -68,23 +68,23 @@ Proof.
     apply andb_true_iff in Hb. destruct Hb as [Hm Ha]. apply negb_true_iff in Ha. auto.
 Qed.
 
-Lemma avail_incl g W opts : incl (avail g W opts) opts.
+Lemma avail_incl g W rem opts : incl (avail g W rem opts) opts.
 Proof. unfold avail. intros o Ho. apply filter_In in Ho. apply Ho. Qed.
 
-Lemma greedy_pre g vars x : vars_wf g vars -> forall fuel s taken s' taken',
-  Pre g s -> greedy g vars x fuel s taken = Some (TOk s' taken') -> Pre g s'.
+Lemma greedy_pre g vars x : vars_wf g vars -> forall fuel s rem taken s' taken',
+  Pre g s -> greedy g vars x fuel s rem taken = Some (TOk s' taken') -> Pre g s'.
 Proof.
-  intros [Hwf _]. induction fuel as [|f IH]; intros s taken s' taken' Hp H; cbn [greedy] in H;
+  intros [Hwf _]. induction fuel as [|f IH]; intros s rem taken s' taken' Hp H; cbn [greedy] in H;
     destruct (closure g s) as [W|] eqn:EW; try discriminate;
-    destruct (next_choice g s W vars) as [[c opts]|] eqn:EN.
+    destruct (next_choice g s W rem vars) as [[c opts]|] eqn:EN.
   - discriminate.
   - destruct (final_ok g s W); inversion H; subst. exact Hp.
-  - destruct (next_choice_some _ _ _ _ _ _ EN) as (Hin & HcW & Has).
+  - destruct (next_choice_some _ _ _ _ _ _ _ EN) as (Hin & HcW & Has).
     destruct (Hwf _ Hin) as [Hsel Hincl]. simpl in Hsel, Hincl.
     assert (Hpend : In c (pending g s W)).
     { apply pending_spec. split; [apply memN_In, HcW|]. split; [exact Hsel|]. apply assigned_false, Has. }
-    destruct (avail g W opts) as [|o [|o2 av]] eqn:EA; try discriminate.
-    + eapply IH; [|exact H]. eapply Pre_step; eauto. apply Hincl, (avail_incl g W opts). rewrite EA. left; reflexivity.
+    destruct (avail g W rem opts) as [|o [|o2 av]] eqn:EA; try discriminate.
+    + eapply IH; [|exact H]. eapply Pre_step; eauto. apply Hincl, (avail_incl g W rem opts). rewrite EA. left; reflexivity.
     + destruct (0 <=? x c)%Z; [|discriminate].
       destruct (nth_error opts (Z.to_nat (x c))) as [o'|] eqn:En; [|discriminate].
       destruct (memN o' (o :: o2 :: av)); [|discriminate].
@@ -93,29 +93,29 @@ Proof.
 Qed.
 
 Theorem greedy_adm g vars x fuel s' taken' :
-  vars_wf g vars -> greedy g vars x fuel [] [] = Some (TOk s' taken') -> Adm g s'.
+  vars_wf g vars -> greedy g vars x fuel [] [] [] = Some (TOk s' taken') -> Adm g s'.
 Proof.
-  intros Hwf H. pose proof (greedy_pre g vars x Hwf _ _ _ _ _ (Pre_nil g) H) as Hp.
-  destruct (greedy_ok _ _ _ _ _ _ _ _ H) as (W & Hcl & Hnone & Hfin).
+  intros Hwf H. pose proof (greedy_pre g vars x Hwf _ _ _ _ _ _ (Pre_nil g) H) as Hp.
+  destruct (greedy_ok _ _ _ _ _ _ _ _ _ H) as (W & rem & Hcl & Hnone & Hfin).
   eapply leaf_adm; eauto.
   destruct (pending g s' W) as [|c t] eqn:EP; [reflexivity|exfalso].
   assert (Hc : In c (pending g s' W)) by (rewrite EP; left; reflexivity).
   apply pending_spec in Hc. destruct Hc as (HcW & Hsel & Hnin).
   destruct Hwf as [_ Hcov]. specialize (Hcov c Hsel). apply in_map_iff in Hcov. destruct Hcov as (v & Ev & Hv).
-  pose proof (next_choice_none _ _ _ _ Hnone v Hv) as Ha. rewrite Ev in Ha.
+  pose proof (next_choice_none _ _ _ _ _ Hnone v Hv) as Ha. rewrite Ev in Ha.
   specialize (Ha (proj2 (memN_In _ _) HcW)). apply assigned_true in Ha. contradiction.
 Qed.
 
 (* ---------- one try ---------- *)
-Lemma try_vector_sound chk g vars fixed y imp inst :
-  try_vector chk g vars fixed y = Some (Some (imp, inst)) ->
-  exists s taken, settled g vars s /\ (vars_wf g vars -> Adm g s) /\ inst_nodes g s = Some inst /\
+Lemma try_vector_sound chk g ovars vars fixed y imp inst :
+  try_vector chk g ovars vars fixed y = Some (Some (imp, inst)) ->
+  exists s taken, settled g ovars s /\ (vars_wf g ovars -> Adm g s) /\ inst_nodes g s = Some inst /\
                   imp = map (fun v => zlookup taken (fst v)) vars /\
                   (forall c i, In (c, i) taken -> i = req_of vars y c) /\
                   (chk = true -> respects_fixed g vars y fixed taken inst = true).
 Proof.
   unfold try_vector. intros H.
-  destruct (greedy g vars (req_of vars y) (length vars + 1) [] []) as [[|s taken]|] eqn:EG; try discriminate.
+  destruct (greedy g ovars (req_of vars y) (length vars + 1) [] [] []) as [[|s taken]|] eqn:EG; try discriminate.
   destruct (inst_nodes g s) as [inst'|] eqn:EI; [|discriminate].
   destruct (negb chk || respects_fixed g vars y fixed taken inst') eqn:ER; [|discriminate].
   inversion H; subst. exists s, taken. split; [eapply greedy_ok; eauto|].
@@ -143,11 +143,11 @@ Definition nvars_of (vars : list gvar) (x : list Z) (fixed : list bool) : list n
 (* soundness: what the decode returns comes from a vector of the neighbourhood of the request -- the fixed entries are the
    requested ones, the others are option indices -- whose greedy application is settled (final, no conflict, constraints
    met) and, with the check on, respects the fixed values *)
-Theorem fast_decode_sound chk g vars x fixed imp inst :
+Theorem fast_decode_sound chk g ovars vars x fixed imp inst :
   requested_ok (nvars_of vars x fixed) ->
-  fast_decode chk g vars x fixed = Some (Some (imp, inst)) ->
+  fast_decode chk g ovars vars x fixed = Some (Some (imp, inst)) ->
   exists y s taken,
-    in_space (nvars_of vars x fixed) y /\ settled g vars s /\ (vars_wf g vars -> Adm g s) /\ inst_nodes g s = Some inst /\
+    in_space (nvars_of vars x fixed) y /\ settled g ovars s /\ (vars_wf g ovars -> Adm g s) /\ inst_nodes g s = Some inst /\
     imp = map (fun v => zlookup taken (fst v)) vars /\
     (forall c i, In (c, i) taken -> i = req_of vars y c) /\
     (chk = true -> respects_fixed g vars y fixed taken inst = true).
@@ -166,21 +166,21 @@ Proof.
   f_equal. apply IH; lia.
 Qed.
 
-Theorem fast_decode_respects g vars x fixed imp inst :
+Theorem fast_decode_respects g ovars vars x fixed imp inst :
   requested_ok (nvars_of vars x fixed) ->
-  fast_decode true g vars x fixed = Some (Some (imp, inst)) ->
+  fast_decode true g ovars vars x fixed = Some (Some (imp, inst)) ->
   exists y taken, in_space (nvars_of vars x fixed) y /\ respects_fixed g vars y fixed taken inst = true /\
                   imp = map (fun v => zlookup taken (fst v)) vars.
 Proof.
-  intros Hok H. destruct (fast_decode_sound true g vars x fixed imp inst Hok H)
+  intros Hok H. destruct (fast_decode_sound true g ovars vars x fixed imp inst Hok H)
     as (y & s & taken & H1 & _ & _ & _ & H4 & _ & H6). exists y, taken. auto.
 Qed.
 
 (* a vector that is already valid is returned as it is: its own greedy application decides *)
-Theorem fast_decode_identity chk g vars x fixed r :
+Theorem fast_decode_identity chk g ovars vars x fixed r :
   length x = length vars -> length fixed = length vars ->
-  try_vector chk g vars fixed x = Some (Some r) ->
-  fast_decode chk g vars x fixed = Some (Some r).
+  try_vector chk g ovars vars fixed x = Some (Some r) ->
+  fast_decode chk g ovars vars x fixed = Some (Some r).
 Proof.
   intros Hx Hf H. unfold fast_decode. fold (nvars_of vars x fixed).
   destruct (neighborhood_head (nvars_of vars x fixed)) as [t Ht]. rewrite Ht.
@@ -198,6 +198,6 @@ Definition g_f20 : dsg :=
 Definition vars_f20 : list gvar := [(10, [2; 3]); (11, [5; 6])].
 
 Theorem fixed_value_ignored_refuted :
-  fast_decode false g_f20 vars_f20 [1; 0]%Z [false; true] = Some (Some ([1; -1]%Z, [0; 1; 4; 3; 6])) /\
-  fast_decode true g_f20 vars_f20 [1; 0]%Z [false; true] = Some (Some ([0; 0]%Z, [0; 1; 4; 2; 5])).
+  fast_decode false g_f20 vars_f20 vars_f20 [1; 0]%Z [false; true] = Some (Some ([1; -1]%Z, [0; 1; 4; 3; 6])) /\
+  fast_decode true g_f20 vars_f20 vars_f20 [1; 0]%Z [false; true] = Some (Some ([0; 0]%Z, [0; 1; 4; 2; 5])).
 Proof. vm_compute. split; reflexivity. Qed.
